@@ -657,6 +657,11 @@ def book(ctx, c, o, res1):
             ctx.dist('patched_with', 'none' if not pw else ('root-only' if pw == ['None'] else
                                                            ('ancestors+root' if 'None' in pw else f'{len(pw)}-ancestor(s)')))
     ctx.dist('extra_keys', len(c['extra_keys']))
+    refset = set(c['ref'])
+    if any(g not in refset for k in o['children'] for g in c['table'].get(k, [])):
+        # a parent of the tree lists a gene that is no reference gene: rejected, or accepted under the documented excuse
+        ctx.dist('unknown_marker_under_a_parent', 'accepted (excused: absent from the query, entry replaced)'
+                 if o['create']['ok'] else f'rejected (error{o["create"]["err"]})')
     if c['dup_names']:
         ctx.dist('duplicate_names', c['dup_names'])
     if nontriv:
@@ -669,9 +674,12 @@ def report_property(ctx, c, o, res1, corr, prop, found_by=None):
     """One violation WITH input per class of property failure; True if one was reported (i.e. is not a known finding)."""
     reported = False
     seen = set()
+    classes = {cls for cls, _ in prop}
     for cls, msg in prop:
         if cls in seen:
             continue
+        if cls == C_SPEC_VALIDATE and C_SPEC in classes:
+            continue          # same defect seen twice on this input; the cache is what is used (all_property_failures has both)
         seen.add(cls)
         d = dict(describe(c, o, res1))
         d['class'] = cls
